@@ -571,3 +571,6 @@ def run(report, repo):
   report.guard(r5_phase_state, report, repo)
   report.guard(r6_allow_nan, report, repo)
   report.guard(r7_convert, report, repo)
+  from sa.rules import extra4  # pylint: disable=g-import-not-at-top
+  report.guard(extra4.immutable_copy_is_deep, report, repo, 'C10-R8')
+  report.guard(extra4.cache_conversions_json_safe, report, repo, 'C10-R9')
